@@ -145,6 +145,7 @@ def rwTouches (rw : Option Rewrite.Rewrite) (t : UInt8) : Bool :=
 def subsOf : Nat → Bytes → Option (List (UInt8 × Bytes))
   | 0, _ => none
   | _, [] => some []
+  | _, [_] => some []          -- attrvalidate tolerates one trailing octet
   | fuel+1, t :: lb :: tail =>
     if lb.toNat < 2 || tail.length < lb.toNat - 2 then none
     else (subsOf fuel (tail.drop (lb.toNat - 2))).map fun r => (t, tail.take (lb.toNat - 2)) :: r
